@@ -635,10 +635,13 @@ class ADEV(Pytree):
                     primal_outs = [primal_outs]
                     tangent_outs = [tangent_outs]
 
+                # JVP rules of multiple-result primitives may return their primal and
+                # tangent outputs in different sequence types (e.g. sort: tuple, list);
+                # pair them positionally like JAX's own JVP trace does.
                 jax_util.safe_map(
                     dual_env.write,
                     eqn.outvars,
-                    Dual.dual_tree(primal_outs, tangent_outs),
+                    Dual.dual_tree(list(primal_outs), list(tangent_outs)),
                 )
             (out_dual,) = jax_util.safe_map(dual_env.read, jaxpr.outvars)
             if not isinstance(out_dual, Dual):
